@@ -487,6 +487,7 @@ def check_gyration(run, pkg):
         pc_full = None
         descending = False
         REV = ("slice", NONE, NONE, C(-1))
+        direct_pc = None
         for e in it.events:
             if e.kind == "assign":
                 v_ = e.data["value"]
@@ -494,6 +495,10 @@ def check_gyration(run, pkg):
                     pc = pc_full = v_
                 elif v_[0] == "sub" and v_[2] == REV and v_[1][0] == "call" and v_[1][1] == "numpy.sort":
                     pc, pc_full, descending = v_[1], v_, True
+                elif v_[0] == "call" and v_[1] == "numpy.linalg.eigvalsh" and pc is None:
+                    # eigvalsh returns the eigenvalues in ascending order (numpy's documented contract): no sort needed
+                    pc = pc_full = ("call", "numpy.sort", (v_,), ())
+                    direct_pc = v_
         okpc = tri_lazy(lambda: (True if (pc is not None) else None), lambda: eqv(pc[2][0], ("sub", ("call", "numpy.linalg.eig", (T,), ()), C(0)), ("call", "numpy.linalg.eigvalsh", (T,), ()), ("call", "numpy.linalg.eigvals", (T,), ()), same=True), lambda: (True if (not pc[3]) else None))
         run.ob("R-ALG", fq, f"{tag}:eigenvalues", okpc, "principal components = the sorted eigenvalues of the tensor" + (" (kept in descending order: index k is eigenvalue d-1-k)" if descending else ""), show(pc_full)[:80] if pc else "?",
                witness=None if okpc else "eigenvalues of another matrix", loc=fi.loc(), sound=True)
@@ -507,10 +512,13 @@ def check_gyration(run, pkg):
         Np = sp.Symbol("N", positive=True)
         tot = sum(lam[:ndim])
 
+        pcs = [pc_full] + ([direct_pc] if direct_pc is not None else [])
+
         def at(t):
-            if pc is not None and t[0] == "sub" and t[1] == pc_full and is_const(t[2]) and isinstance(t[2][1], int) and 0 <= t[2][1] < ndim:
-                return lam[ndim - 1 - t[2][1]] if descending else lam[t[2][1]]
-            if pc is not None and t in (("call", ".sum", (pc_full,), ()), ("call", "numpy.sum", (pc_full,), ())):
+            if pc is not None and t[0] == "sub" and t[1] in pcs and is_const(t[2]) and isinstance(t[2][1], int) and -ndim <= t[2][1] < ndim:
+                k_ = t[2][1] % ndim            # the array holds exactly `ndim` eigenvalues: a negative index counts from its end
+                return lam[ndim - 1 - k_] if descending else lam[k_]
+            if pc is not None and any(t in (("call", ".sum", (p_,), ()), ("call", "numpy.sum", (p_,), ())) for p_ in pcs):
                 return tot
             if t == N:
                 return Np
